@@ -73,9 +73,9 @@ Full statement / proved / missing
                          for every FloatIO (whatever digit strings fmt returns): padNumber's placement of blanks and
                          zeros, the restored fraction keeps the printed text and does not depend on the sign, the width
                          is reached by every letter (assuming only that fmt pads its own output: `IOWidth`).
-* EVERY VALUE KIND (`Model/FormatX.lean`: SemVer, SemVerRange, URI, Timespan, Timestamp, Sensitive, Type values, object instances
+* EVERY VALUE KIND (`Model/FormatX.lean`: SemVer, SemVerRange, URI, Timespan, Timestamp, Sensitive, Type values, type aliases, object types, object instances
   beside the ten kinds above; format maps over ANY system of key types `KeySys κ`), section "the extended model" at the end:
-  `C20_x_letters` (the regenerated table of all 18 kinds: handled = documented = what the model formats, ApplyStringFlags called
+  `C20_x_letters` (the regenerated table of all 20 kinds: handled = documented = what the model formats, ApplyStringFlags called
   exactly where the model applies the string flags), `C20_x_total` / `C20_x_total_map` (text or reported, no Go fault, any key
   system), `C20_x_unsupported_iff` (reported unsupported ⇔ letter outside the regenerated documented set, every kind that is not
   a container), `C20_x_unsupported_array/hash/obj`, `C20_x_refines` (on the ten kinds of Format.lean under the 16 default keys
@@ -89,7 +89,8 @@ Full statement / proved / missing
   the same map), `C20_x_width_partial` (width reached
   wherever the code applies the string flags: SemVer, URI, SemVerRange — every letter, after fix 5c2f826 — and Type).  The full width
   statement `C20_x_width_full` is FALSE: `C20_x_width_fails` (known finding C20-width-ignored, narrowed: the ToString of Timespan,
-  Timestamp and Sensitive never looks at the format).
+  Timestamp and Sensitive never looks at the format; a type alias ignores the width too), `C20_x_alias`, `C20_x_otype_named` /
+  `C20_x_otype_anon` / `C20_x_unsupported_otype` (aliases and object types used as values).
 * PER-TYPE MAPS OVER ANY KEY TYPES (`Model/FormatMergeG.lean`: mergeFormats over a key order `KeyOrd` = IsAssignable / Equals / typeRank /
   String(); `Model/FormatLat.lean`: keys = arbitrary types of the lattice model, acceptance = `Lat.asg key (Lat.ptype v)`):
   `C20_map_most_specific_any` (the lookup law for ANY key system whose assignability is a partial order ON THE KEYS OF THE MAP and
@@ -696,7 +697,7 @@ example : format io0 (contextMap [(.arr, .mk (simpleFmt 'a') (some [(.int, .mk (
 /-! ## the extended model: every value kind with a ToString of its own, format maps over any system of key types
     (`Pcore/Model/FormatX.lean`; op `fmtx`) -/
 
-/-- the regenerated table over all 18 kinds: per kind, the letters whose arm formats = the literal handed to UnsupportedFormat =
+/-- the regenerated table over all 20 kinds: per kind, the letters whose arm formats = the literal handed to UnsupportedFormat =
     the letters the model formats; ApplyStringFlags is called exactly under the letters where the model applies the string flags -/
 theorem C20_x_letters : XLettersOK formatLettersX := lettersOKXb_sound formatLettersX (by decide +kernel)
 
@@ -814,7 +815,7 @@ theorem C20_x_flags_table (k : XKind) (c : Char) (h : documentedInX formatLetter
 /-- **width, the kinds of the extended model** — SemVer, URI, SemVerRange (all their letters: fix 5c2f826 routed `%p` of SemVer / URI
     and both letters of SemVerRange through ApplyStringFlags) and Type values: the text is at least as wide as requested -/
 theorem C20_x_width_partial (io : FloatIO) (d : Str) (f : Fmt) (v : XVal) (w : Nat) (s : Str) (h : Directive d f)
-    (hk : v.kind = .semver ∨ v.kind = .uri ∨ v.kind = .semverRange ∨ v.kind = .typ)
+    (hk : v.kind = .semver ∨ v.kind = .uri ∨ v.kind = .semverRange ∨ v.kind = .typ ∨ v.kind = .otype)
     (hw : f.width = some w) (hs : formatDirectiveX io d v = .text s) : w ≤ s.length := by
   unfold formatDirectiveX formatX at hs
   rw [h] at hs
@@ -905,6 +906,46 @@ theorem C20_x_typ {κ : Type} (ks : KeySys κ) (io : FloatIO) (m : GMap κ) (ind
     fmtX ks io m ind (.typ name (p :: ps)) =
       typeFinish (getG ks m (.typ name (p :: ps))).f name (fmtX ks io m ind.ctxSubsequent (.array (p :: ps))) :=
   fmtX_typ ks io m ind name p ps hl
+
+/-- **type aliases as values**: the name, whatever the letter and the flags (`TypeAliasType.ToString` has no switch on the letter) — except
+    under `%#b`, which formats ` = ` and the resolved type under the same context -/
+theorem C20_x_alias {κ : Type} (ks : KeySys κ) (io : FloatIO) (m : GMap κ) (ind : Ind) (name : Str) (r : XVal)
+    (hn : name ≠ "UnresolvedAlias".toList)
+    (hb : ¬ ((getG ks m (.talias name r)).f.alt = true ∧ (getG ks m (.talias name r)).f.letter = 'b')) :
+    fmtX ks io m ind (.talias name r) = .text name := fmtX_alias ks io m ind name r hn hb
+
+/-- **object types as values**: a named one is its name, an anonymous one `Object[{key => value, …}]` of its init hash — the values one
+    level in (under the same map when containers, else under the container formats), the members of `attributes` / `functions` two
+    levels in under the same map; `#s` quotes and the string flags apply to the whole text; any letter but s p is unsupported -/
+theorem C20_x_otype_named {κ : Type} (ks : KeySys κ) (io : FloatIO) (m : GMap κ) (ind : Ind) (name : Str) (ih : List OEntry)
+    (hn : name ≠ []) (hl : isTypeLetter (getG ks m (.otype name ih)).f.letter = true) :
+    fmtX ks io m ind (.otype name ih) = typeFinish (getG ks m (.otype name ih)).f [] (.text name) :=
+  fmtX_otype_named ks io m ind name ih hn hl
+
+theorem C20_x_otype_anon {κ : Type} (ks : KeySys κ) (io : FloatIO) (m : GMap κ) (ind : Ind) (ih : List OEntry)
+    (hl : isTypeLetter (getG ks m (.otype [] ih)).f.letter = true) :
+    fmtX ks io m ind (.otype [] ih) =
+      typeFinish (getG ks m (.otype [] ih)).f []
+        ((otypeEntries ks io m (cfOfG ks (getG ks m (.otype [] ih))) (getG ks m (.otype [] ih)).f
+            (ind.increase (getG ks m (.otype [] ih)).f.alt)
+            ((ind.increase (getG ks m (.otype [] ih)).f.alt).increase (getG ks m (.otype [] ih)).f.alt) true ih).bind fun s =>
+          .text ("Object[{".toList ++ s ++ (if (getG ks m (.otype [] ih)).f.alt then '\n' :: ind.padding else []) ++ "}]".toList)) :=
+  fmtX_otype_anon ks io m ind ih hl
+
+theorem C20_x_unsupported_otype {κ : Type} (ks : KeySys κ) (io : FloatIO) (m : GMap κ) (ind : Ind) (name : Str) (ih : List OEntry)
+    (hl : documentedInX formatLettersX .otype (getG ks m (.otype name ih)).f.letter = false) :
+    fmtX ks io m ind (.otype name ih) = .reported .unsupported := by
+  rw [documentedInX_eq_acceptsX formatLettersX C20_x_letters] at hl
+  exact fmtX_of_not_accepts ks io m ind (.otype name ih) rfl hl
+
+example : formatX kindKeys io0 [(.base .typ, .mk (parsed "%#p") none)] (.otype [] [.members "attributes".toList [.mk (.str ['a']) (.typ "Integer".toList []),
+      .mk (.str ['b']) (.hash [.mk (.str "type".toList) (.typ "String".toList []), .mk (.str "value".toList) (.str ['x'])])],
+      .plain "equality".toList (.array [.str ['a']])]) =
+    .text "Object[{\n  attributes => {\n    'a' => Integer,\n    'b' => {'type' => String, 'value' => 'x'}\n  },\n  equality => ['a']\n}]".toList ∧
+    formatDirectiveX io0 "%12p".toList (.otype "My::T".toList []) = .text "       My::T".toList ∧
+    formatDirectiveX io0 "%d".toList (.otype "My::T".toList []) = .reported .unsupported ∧
+    formatDirectiveX io0 "%30d".toList (.talias "Data".toList (.typ "Variant".toList [])) = .text "Data".toList ∧
+    formatDirectiveX io0 "%#b".toList (.talias "Data".toList (.typ "Variant".toList [])) = .reported .unsupported := by decide +kernel
 
 /-- non-vacuity: every kind inside containers under the default formats; an object with a nested object and a Struct type in
     alt mode; a map that formats the parameters of a Type with `<` `>` and `;` -/
